@@ -1,19 +1,31 @@
 ---------------------------- MODULE MC_DvbDemux ----------------------------
-(* Model checking of DvbDemux: every partition of a stream into feed calls (callback interface) and
-   into coroutine calls (max_lines from CorLines), for a set of streams made of a damaged region
-   followed by intact packets.  Streams = tuple of [ts, pid, bytes, sent]: `sent` are the frames the
-   intact tail carries, without the first and the last one (the last is completed only by a later
-   packet).                                                                                       *)
+(* Model checking of DvbDemux (property C07).
+
+   PartitionInvariance: for every stream of `Streams`, every receiver policy of `Policies` and every
+   partition of the stream into feed calls (callback interface) or coroutine calls (max_lines from
+   CorLines; a coroutine call may also stop in the middle of its buffer) the frames handed out after
+   every call are those of the sequential reference for the bytes received so far.  TLC explores the
+   graph of (bytes fed, receiver state); every path of it is one partition, all 2^(n-1) are covered.
+
+   Recovery is a statement about the reference alone (PartitionInvariance carries it over to every
+   partition): `RecStreams` are a damaged region followed by intact packets P1 P2 P3 P4 carrying the
+   frames F1 .. F4; all but at most the first frame after the damage have to be delivered exactly as
+   sent: F2 and F3 (F4 is completed only by a later packet).  RecMode selects what is asserted:
+     "std"    policy "all" recovers on every stream; policy "err" recovers on every stream except
+              those marked `quiet` (bytes were lost, the damaged packet swallows the head of P1 and
+              its data units still parse without an error)
+     "orig"   policy "none" on the not-quiet streams  (expected to fail: the defect repaired in /repo)
+     "known"  policy "err" on the quiet streams       (expected to fail: the known finding)          *)
 EXTENDS DvbDemux
 
-CONSTANTS Streams, CorLines
+CONSTANTS Streams, RecStreams, CorLines, Policies, RecMode
 VARIABLES sid, mode, s
 vars == <<sid, mode, s>>
 
 X == Streams[sid].bytes
 
 Init == /\ sid \in 1..Len(Streams) /\ mode \in ({0} \cup CorLines)
-        /\ s = S0(Streams[sid].ts, mode = 0, Streams[sid].pid)
+        /\ \E pol \in (IF Streams[sid].ts THEN {"all"} ELSE Policies) : s = S0(Streams[sid].ts, mode = 0, Streams[sid].pid, pol)
 
 FeedCall == /\ mode = 0 /\ s.ce < Len(X)
             /\ \E n \in 1..(Len(X) - s.ce) : s' = Feed(X, s, n)
@@ -24,59 +36,86 @@ Next == (FeedCall \/ CorCall) /\ UNCHANGED <<sid, mode>>
 Spec == Init /\ [][Next]_vars
 
 \* what is delivered when the first k bytes arrive in one piece
-Whole(i, k) == IF Streams[i].ts THEN Feed(Streams[i].bytes, S0(TRUE, TRUE, Streams[i].pid), k).d.out
-               ELSE Frames(Streams[i].bytes, k)
-RefTab == [i \in 1..Len(Streams) |-> [k \in 0..Len(Streams[i].bytes) |-> Whole(i, k)]]
+Whole(st, k, pol) == IF st.ts THEN Feed(st.bytes, S0(TRUE, TRUE, st.pid, pol), k).d.out
+                     ELSE Frames(st.bytes, k, pol)
+PolIx == [none |-> 1, err |-> 2, all |-> 3]
+PolOf == <<"none", "err", "all">>
+RefTab == [i \in 1..Len(Streams) |-> [p \in 1..3 |->
+             IF PolOf[p] \in Policies \/ (Streams[i].ts /\ p = 3)
+             THEN [k \in 0..Len(Streams[i].bytes) |-> Whole(Streams[i], k, PolOf[p])] ELSE <<>>]]
+Ref(k) == RefTab[sid][PolIx[s.d.pol]][k]
 
 IsPrefix(a, b) == Len(a) <= Len(b) /\ SubSeq(b, 1, Len(a)) = a
 
 PartitionInvariance ==
-  /\ mode = 0 => s.d.out = RefTab[sid][s.ce]
-  /\ mode > 0 /\ ~s.ret => s.d.out = CorView(RefTab[sid][s.ce], mode)
-  /\ mode > 0 /\ s.ret => IsPrefix(s.d.out, CorView(RefTab[sid][s.ce], mode))
+  /\ mode = 0 => s.d.out = Ref(s.ce)
+  /\ mode > 0 /\ ~s.ret => s.d.out = CorView(Ref(s.ce), mode)
+  /\ mode > 0 /\ s.ret => IsPrefix(s.d.out, CorView(Ref(s.ce), mode))
 \* the PES receiver fed in one piece is the sequential reference too
-OnePiece == \A i \in 1..Len(Streams) : ~Streams[i].ts =>
-              Feed(Streams[i].bytes, S0(FALSE, TRUE, 0), Len(Streams[i].bytes)).d.out = Frames(Streams[i].bytes, Len(Streams[i].bytes))
-Recovery == s.ce = Len(X) /\ mode = 0 => IsSuffix(Streams[sid].sent, s.d.out)
-\* weaker reading: a packet whose length field reaches into the following packet damages that one too
-RecoveryClaimed == s.ce = Len(X) /\ mode = 0 => IsSuffix(Streams[sid].sentc, s.d.out)
+OnePieceOK == \A i \in 1..Len(RecStreams) : \A pol \in Policies : ~RecStreams[i].ts =>
+                Feed(RecStreams[i].bytes, S0(FALSE, TRUE, 0, pol), Len(RecStreams[i].bytes)).d.out
+                  = Frames(RecStreams[i].bytes, Len(RecStreams[i].bytes), pol)
+OnePiece == OnePieceOK
 NoLookaheadOverrun == ~s.bad /\ s.rd <= s.ce /\ s.left <= s.rd /\ s.tn <= s.rd
 Consumed == mode = 0 => s.rd = s.ce           \* a feed call uses up its buffer
 
+Asserted(st, pol) == IF st.ts THEN pol = "all" /\ RecMode = "std"
+                     ELSE CASE RecMode = "std" -> pol = "all" \/ (pol = "err" /\ ~st.quiet)
+                            [] RecMode = "orig" -> pol = "none" /\ ~st.quiet
+                            [] RecMode = "known" -> pol = "err" /\ st.quiet
+                            [] OTHER -> FALSE
+Recovers(st, pol) == IsSuffix(st.sent, Whole(st, Len(st.bytes), pol))
+RecoveryOK == \A i \in 1..Len(RecStreams) : \A pol \in {"none", "err", "all"} :
+                 Asserted(RecStreams[i], pol) => (Recovers(RecStreams[i], pol) \/ (PrintT(<<"no recovery", i, pol>>) /\ FALSE))
+Recovery == RecoveryOK
+\* vacuity guard: the damaged streams do differ from the intact one, and something is asserted
+RecoveryMeaningful == /\ \E i \in 1..Len(RecStreams) : \E pol \in {"none", "err", "all"} : Asserted(RecStreams[i], pol)
+                      /\ \A i \in 2..Len(RecStreams) : RecStreams[i].ts = RecStreams[1].ts => RecStreams[i].bytes # RecStreams[1].bytes
+
 -----------------------------------------------------------------------------
-(* streams for the scaled layout HdlVal = 5, MinPL = 27, TtxN = 2, VpsN = 1, TSP = 11, HL = 17 *)
+(* streams for the scaled layout HdlVal = 5, MinPL = 27, TtxN = 2, VpsN = 1, TSP = 11, HL = 17:
+   a PES packet has 33 bytes (15 header bytes up to the data_identifier, 18 bytes of data units) *)
 T(l, a, b) == [line |-> l, id |-> TTX, data |-> <<a, b>>]
 V(a) == [line |-> 16, id |-> VPS, data |-> <<a>>]
 W(a, b) == [line |-> 23, id |-> WSS625, data |-> <<a, b>>]
-Fr == << <<T(7, 34, 35), V(77)>>, <<T(7, 36, 37), W(5, 6)>>, <<T(9, 38, 39), T(320, 40, 41)>>, <<T(8, 42, 43)>>, <<T(0, 50, 51), V(78)>> >>
+(* F1 .. F4, and F5 / F6 for the packet that gets damaged.  Consecutive frames are recognisable (the
+   first line of a frame is not above the last line of its predecessor); F1 and F3 are not: when F2 is
+   lost, F3 looks like a continuation of F1.  The same holds for F5/F6 and F2.                      *)
+Fr == << <<T(7, 34, 35), V(77)>>, <<T(8, 36, 37), W(5, 6)>>, <<T(17, 38, 39), T(320, 40, 41)>>, <<T(8, 42, 43)>>,
+         <<T(0, 50, 51), V(78)>>, <<T(7, 52, 53)>> >>
 Pts(i) == <<i % 8, 1000 * i + 7>>
 Pk(i) == EncPes(Fr[i], Pts(i), 153, 33)
 \* as the receiver returns it: the two reserved bits behind the 14 WSS bits arrive as ones
 Rx(l) == IF l.id = WSS625 THEN [l EXCEPT !.data = <<l.data[1], (l.data[2] % 64) + 192>>] ELSE l
 Deliv(i) == [lines |-> [j \in 1..Len(Fr[i]) |-> Rx(Fr[i][j])], pts |-> Pts(i)]
 Tail4 == Pk(1) \o Pk(2) \o Pk(3) \o Pk(4)
+Tail2 == Pk(1) \o Pk(2)
 Sent4 == <<Deliv(2), Deliv(3)>>
 SetAt(q, i, v) == [q EXCEPT ![i + 1] = v]
 
+\* [bytes, quiet]
 PesDamage == <<
-   <<>>,                                           \* intact
-   <<9, 8, 0, 0, 1, 5, 9, 0, 0>>,                  \* junk with a start code prefix of a low stream id, ending 00 00
-   SubSeq(Pk(5), 1, 20),                           \* truncated packet
-   <<0, 0, 1, 224, 0, 3, 9, 9, 9>>,                \* packet of another stream
-   <<0, 0, 1, 189, 0, 2, 7, 7>>,                   \* VBI stream id, too short
-   SetAt(Pk(5), 8, 4),                             \* wrong PES_header_data_length
-   SetAt(Pk(5), 16, 200),                          \* first data unit crosses the packet end
-   SetAt(Pk(5), 7, 0),                             \* no PTS in the first packet of a frame
-   SubSeq(Pk(5), 1, 12) \o SubSeq(Pk(5), 14, 33),  \* one byte lost
-   SubSeq(Pk(5), 1, 12) \o <<3>> \o SubSeq(Pk(5), 13, 33),   \* one byte inserted
-   Pk(5) \o <<0>> >>                               \* stray byte between packets
+   [b |-> <<>>, q |-> FALSE],                                         \* 1 intact
+   [b |-> <<9, 8, 0, 0, 1, 5, 9, 0, 0>>, q |-> FALSE],                \* 2 junk with a start code prefix of a low stream id, ending 00 00
+   [b |-> SubSeq(Pk(5), 1, 20), q |-> FALSE],                         \* 3 truncated packet: a data unit crosses the claimed end
+   [b |-> <<0, 0, 1, 224, 0, 3, 9, 9, 9>>, q |-> FALSE],              \* 4 packet of another stream
+   [b |-> <<0, 0, 1, 189, 0, 2, 7, 7>>, q |-> FALSE],                 \* 5 VBI stream id, too short
+   [b |-> SetAt(Pk(5), 8, 4), q |-> FALSE],                           \* 6 wrong PES_header_data_length
+   [b |-> SetAt(Pk(5), 16, 200), q |-> FALSE],                        \* 7 first data unit crosses the packet end
+   [b |-> SetAt(Pk(5), 7, 0), q |-> FALSE],                           \* 8 no PTS in the first packet of a frame
+   [b |-> SubSeq(Pk(5), 1, 12) \o SubSeq(Pk(5), 14, 33), q |-> FALSE],            \* 9 one byte lost in the header
+   [b |-> SubSeq(Pk(5), 1, 12) \o <<3>> \o SubSeq(Pk(5), 13, 33), q |-> FALSE],   \* 10 one byte inserted
+   [b |-> Pk(5) \o <<0>>, q |-> FALSE],                               \* 11 stray byte between packets
+   [b |-> SetAt(Pk(5), 17, 60), q |-> FALSE],                         \* 12 line_offset out of range in the first data unit
+   [b |-> Pk(6) \o SetAt(Pk(5), 22, 0), q |-> FALSE],                 \* 13 intact packet, then a packet with a too short VPS unit behind a good line
+   [b |-> SubSeq(Pk(6), 1, 32), q |-> TRUE],                          \* 14 last byte (stuffing) of a packet lost
+   [b |-> SubSeq(Pk(6), 1, 29), q |-> TRUE] >>                        \* 15 last four bytes (stuffing) lost
 
-Reaches == {3, 9}             \* damage whose PES_packet_length covers the head of the first intact packet
-PesStreams == [i \in 1..Len(PesDamage) |-> [ts |-> FALSE, pid |-> 0, bytes |-> PesDamage[i] \o Tail4, sent |-> Sent4,
-                                             sentc |-> IF i \in Reaches THEN <<Deliv(3)>> ELSE Sent4]]
+PesStream(i, tail) == [ts |-> FALSE, pid |-> 0, bytes |-> PesDamage[i].b \o tail, sent |-> Sent4, quiet |-> PesDamage[i].q]
 
 Ts(i, cc) == TsPackets(Pk(i), 291, cc, TRUE)            \* 3 packets each
-TsTail == Ts(1, 5) \o Ts(2, 8) \o Ts(3, 11) \o Ts(4, 14)
+TsTail4 == Ts(1, 5) \o Ts(2, 8) \o Ts(3, 11) \o Ts(4, 14)
+TsTail2 == Ts(1, 5) \o Ts(2, 8)
 Other == <<71, 0, 17, 16, 1, 2, 3, 4, 5, 6, 7, 8, 9, 10, 11>>      \* other PID
 TsDamage == <<
    <<>>,
@@ -87,9 +126,17 @@ TsDamage == <<
    SubSeq(Ts(5, 2), 1, 30) \o SubSeq(Ts(5, 2), 16, 45),            \* packet repeated
    SubSeq(Ts(5, 2), 1, 20) \o <<1, 1>> \o SubSeq(Ts(5, 2), 21, 45),  \* two bytes inserted: sync lost
    SetAt(Ts(5, 2), 16, 128),                                       \* transport error indicator
-   SetAt(Ts(5, 2), 16, 65) >>                                      \* unexpected payload unit start
-TsStreams == [i \in 1..Len(TsDamage) |-> [ts |-> TRUE, pid |-> 291, bytes |-> TsDamage[i] \o TsTail, sent |-> Sent4, sentc |-> Sent4]]
+   SetAt(Ts(5, 2), 16, 65),                                        \* unexpected payload unit start
+   Ts(6, 15) \o SubSeq(Ts(5, 2), 1, 44) >>                          \* intact packet, then one with its last byte lost
+TsStream(i, tail) == [ts |-> TRUE, pid |-> 291, bytes |-> TsDamage[i] \o tail, sent |-> Sent4, quiet |-> FALSE]
 
-StreamsQ == SubSeq(PesStreams, 1, 4) \o SubSeq(TsStreams, 1, 3)
-StreamsT == PesStreams \o TsStreams
+Sel(f(_, _), ix, tail) == [k \in 1..Len(ix) |-> f(ix[k], tail)]
+AllPes == [i \in 1..Len(PesDamage) |-> i]
+AllTs == [i \in 1..Len(TsDamage) |-> i]
+
+RecAll == Sel(PesStream, AllPes, Tail4) \o Sel(TsStream, AllTs, TsTail4)
+\* partitions: quick = three representative streams, thorough = every damage followed by two packets
+StreamsQ == Sel(PesStream, <<14>>, Tail2) \o Sel(TsStream, <<5>>, TsTail2)
+StreamsO == Sel(PesStream, <<3>>, Tail2)
+StreamsT == Sel(PesStream, AllPes, Tail2) \o Sel(TsStream, AllTs, TsTail2)
 =============================================================================
